@@ -835,7 +835,9 @@ def rules(tier):
             # detector results reach the counters they belong to
             ('C03.R19', _shared_rule('plumbing', 'unpack_order')),
             # mutation sweep: what the detectors find reaches the counters, once per occurrence
-            ('C03.R20', _shared_rule('c06', 'r21_unit_tallies'))] + _loader_bundle() + _segmentation_bundle() + []
+            ('C03.R20', _shared_rule('c06', 'r21_unit_tallies')),
+            # C03-eb: _find_prob memoised under (base_prob, indexes) - structures with the same probability share entries
+            ('C03.R21', _shared_rule('c01', 'r3b_prob_pure'))] + _loader_bundle() + _segmentation_bundle() + []
 
 
 META = {
